@@ -74,6 +74,14 @@ def obligations(ctx):
     for offs in (0, 1, 3):
         for (api, nn, mt) in ((1, 8, 0), (2, 8, 0), (5, 8, 0), (9, 8, 0), (1, 4, 1)):
             obs.append(ag.api_ob(t, api, nn, mt, 1, 3, 1, nrows=2, ncols=2, offs=offs, tag="offset/"))
+    # values, not only extents: the product pipelines with their scratch buffers 8 / 24 / 56 bytes past a 64-byte boundary return the same exact polynomial
+    # (same analysis as C01 / C02), N = 16 so that several reim4 blocks are processed
+    from vf.props import c01
+    for (path, toffs, avx) in ((2, 1, 1), (2, 3, 0), (2, 7, 1), (3, 1, 0), (3, 7, 1), (0, 1, 1), (1, 3, 1)):
+        if path >= 2:
+            obs.append(c01.prod_ob(t, path, 16, avx, 2, 2, nrows=2, ncols=2, tag="scratch-alignment/", toffs=toffs))
+        else:
+            obs.append(c01.prod_ob(t, path, 16, avx, 1, 1, tag="scratch-alignment/", toffs=toffs))
     return obs
 
 
